@@ -21,11 +21,14 @@ Definition is_c (n : N) (x : ch) : bool := N.eqb (cp x) n.
 Definition nl : ch := ascii_ch 10%N.
 Definition spc : ch := ascii_ch 32%N.
 
+(* List.rev is quadratic; this is the linear one (rev_append_rev gives frev l = rev l) *)
+Definition frev {A} (l : list A) : list A := rev_append l [].
+
 Fixpoint dropw {A} (f : A -> bool) (l : list A) : list A :=
   match l with [] => [] | x :: r => if f x then dropw f r else l end.
 Fixpoint takew {A} (f : A -> bool) (l : list A) : list A :=
   match l with [] => [] | x :: r => if f x then x :: takew f r else [] end.
-Definition rdropw {A} (f : A -> bool) (l : list A) : list A := rev (dropw f (rev l)).
+Definition rdropw {A} (f : A -> bool) (l : list A) : list A := frev (dropw f (frev l)).
 
 Definition lstrip (t : text) : text := dropw c_space t.              (* str.lstrip() *)
 Definition rstrip (t : text) : text := rdropw c_space t.             (* str.rstrip() *)
@@ -82,8 +85,8 @@ Definition strip_chars (cs : list N) (t : text) : text := rdropw (in_cps cs) (dr
 
 (* str.removesuffix *)
 Definition remove_suffix (suf : list N) (t : text) : text :=
-  if prefix_cp (rev suf) (rev (cps t)) then firstn (List.length t - List.length suf) t else t.
-Definition ends_with (suf : list N) (t : text) : bool := prefix_cp (rev suf) (rev (cps t)).
+  if prefix_cp (frev suf) (frev (cps t)) then firstn (List.length t - List.length suf) t else t.
+Definition ends_with (suf : list N) (t : text) : bool := prefix_cp (frev suf) (frev (cps t)).
 
 (* number of non-overlapping ", " from the left: len(s.split(", ")) - 1 *)
 Fixpoint count_comma_space (l : list N) : nat :=
@@ -98,11 +101,11 @@ Fixpoint count_comma_space (l : list N) : nat :=
 Fixpoint split_comma_space (cur : text) (t : text) : list text :=
   match t with
   | a :: r => match r with
-              | b :: r' => if is_c 44 a && is_c 32 b then rev cur :: split_comma_space [] r'
+              | b :: r' => if is_c 44 a && is_c 32 b then frev cur :: split_comma_space [] r'
                            else split_comma_space (a :: cur) r
-              | [] => [rev (a :: cur)]
+              | [] => [frev (a :: cur)]
               end
-  | [] => [rev cur]
+  | [] => [frev cur]
   end.
 
 (* str.replace(" or ", " | ") *)
@@ -125,10 +128,10 @@ Definition is_lb (x : ch) : bool :=
   in_range 10 13 c || in_range 28 30 c || N.eqb c 133 || N.eqb c 8232 || N.eqb c 8233.
 Fixpoint splitlines_aux (cur : text) (t : text) : list text :=
   match t with
-  | [] => match cur with [] => [] | _ => [rev cur] end
+  | [] => match cur with [] => [] | _ => [frev cur] end
   | x :: r =>
       if is_lb x then
-        rev cur :: match r with
+        frev cur :: match r with
                    | y :: r' => if is_c 13 x && is_c 10 y then splitlines_aux [] r' else splitlines_aux [] r
                    | [] => []
                    end
@@ -143,7 +146,7 @@ Fixpoint lookup_kw (tbl : list (string * nat)) (key : list N) : option nat :=
   | (k, v) :: r => if eq_cp (str_cps k) key then Some v else lookup_kw r key
   end.
 
-Definition rx_match (x : regex) (t : text) : option (nat * caps) := re_match (rx_ic x) (rx_re x) t.
+Definition rx_match (x : regex) (t : text) : option (N * caps) := re_match (rx_ic x) (rx_re x) t.
 
 Definition l_fence (t : text) : bool := prefix_cp [96; 96; 96]%N (dropw (N.eqb 32) (lower t)).
 Definition l_colon (t : text) : bool := existsb (is_c 58) t.
@@ -254,8 +257,8 @@ Definition g_items_maybe_full (cl : list text) (fs : list lf) (offset : nat) (mu
        | Ok (Some t) =>
            match t with
            | [] => Ok []                       (* if not one_block: return [] *)
-           | _ => match splitlines t with
-                  | [] => Err IndexError       (* lines[0] in _get_name_annotation_description *)
+           | _ => match split_list 10 t with   (* one_block.split("\n"); lines[0] in _get_name_annotation_description *)
+                  | [] => Err IndexError
                   | l0 :: r => Ok [(l0, r)]
                   end
            end
@@ -322,6 +325,51 @@ Fixpoint filter_map {A B} (f : A -> option B) (l : list A) : list B :=
   | x :: r => match f x with Some y => y :: filter_map f r | None => filter_map f r end
   end.
 
+(* ---- Examples sections (the same code in the Google and the Numpy parser) ---- *)
+Definition rx_sub (x : regex) (t : text) : text := re_sub_del (rx_ic x) (rx_re x) t.
+Definition tag_text : text := map (fun a => ascii_ch (N_of_ascii a)) (list_ascii_of_string "text").
+Definition tag_examples : text := map (fun a => ascii_ch (N_of_ascii a)) (list_ascii_of_string "examples").
+
+(* state of the loop over text.split("\n"): in_code_example, in_code_block, current_text, current_example (newest
+   first), sub_sections (newest first) *)
+Record exst := mkExst { ex_in : bool; ex_blk : bool; ex_text : list text; ex_code : list text; ex_subs : list ditem }.
+
+Definition ex_step (flags blankline : regex) (trim : bool) (st : exst) (line : text) : exst :=
+  if l_blank line then
+    if ex_in st then
+      mkExst false (ex_blk st) (ex_text st) []
+             (match ex_code st with
+              | [] => ex_subs st
+              | _ => (tag_examples, None, Some (join nl (frev (ex_code st)))) :: ex_subs st
+              end)
+    else mkExst (ex_in st) (ex_blk st) (line :: ex_text st) (ex_code st) (ex_subs st)
+  else if ex_in st then
+    let line' := if trim then rx_sub blankline (rx_sub flags line) else line in
+    mkExst true (ex_blk st) (ex_text st) (line' :: ex_code st) (ex_subs st)
+  else if prefix_cp [96; 96; 96]%N (cps line) then
+    mkExst false (negb (ex_blk st)) (line :: ex_text st) (ex_code st) (ex_subs st)
+  else if ex_blk st then
+    mkExst false true (line :: ex_text st) (ex_code st) (ex_subs st)
+  else if prefix_cp [62; 62; 62]%N (cps line) then
+    let line' := if trim then rx_sub flags line else line in
+    mkExst true false []
+           (line' :: ex_code st)
+           (match ex_text st with
+            | [] => ex_subs st
+            | _ => (tag_text, None, Some (rstrip_nl (join nl (frev (ex_text st))))) :: ex_subs st
+            end)
+  else mkExst false false (line :: ex_text st) (ex_code st) (ex_subs st).
+
+Definition examples_of (flags blankline : regex) (trim : bool) (block : text) : list ditem :=
+  let st := fold_left (ex_step flags blankline trim) (split_list 10 block) (mkExst false false [] [] []) in
+  frev (match ex_text st with
+        | _ :: _ => (tag_text, None, Some (rstrip_nl (join nl (frev (ex_text st))))) :: ex_subs st
+        | [] => match ex_code st with
+                | _ :: _ => (tag_examples, None, Some (join nl (frev (ex_code st)))) :: ex_subs st
+                | [] => ex_subs st
+                end
+        end).
+
 (* the items of the section of kind k whose header is line hdr *)
 Definition g_section_items (cl : list text) (fs : list lf) (o : gopts) (k : skind) (hdr : nat) : result (list ditem) :=
   let items f := match g_block_items cl fs (S hdr) with Err e => Err e | Ok its => Ok (filter_map f its) end in
@@ -337,7 +385,13 @@ Definition g_section_items (cl : list text) (fs : list lf) (o : gopts) (k : skin
   | KRaises | KWarns => items g_raise_item
   | KReturns | KYields => nad (o_ret_multi o) (o_ret_named o)
   | KReceives => nad (o_rec_multi o) (o_rec_named o)
-  | KExamples | KDeprecated => Ok []                (* sub-sections of Examples are not modelled *)
+  | KExamples =>
+      match g_block_text cl fs (S hdr) with
+      | Err e => Err e
+      | Ok t => Ok (examples_of rx_google__RE_DOCTEST_FLAGS rx_google__RE_DOCTEST_BLANKLINE (o_trim o)
+                                (match t with Some x => x | None => [] end))
+      end
+  | KDeprecated => Ok []
   end.
 
 (* returns_type_in_property_summary: the annotation is what stands before the first ":" of the first line of the
@@ -353,12 +407,12 @@ Definition g_summary_annotation (cl : list text) (ls : list (nat * bool)) : opti
 (* start lines of the items: the recursion of n_items_loop, remembering where each item starts *)
 Fixpoint n_items_idx (rest : list lf) (o : nat) (cur : nat) (acc : list nat) : list nat * nat :=
   match rest with
-  | [] => (rev (cur :: acc), o)
+  | [] => (frev (cur :: acc), o)
   | l :: r =>
       if blank l then n_items_idx r (S o) cur acc
       else if 4 <=? sp l then n_items_idx r (S o) cur acc
       else if 1 <=? sp l then n_items_idx r (S o) cur acc
-      else if next_is_dash r then (rev (cur :: acc), o)
+      else if next_is_dash r then (frev (cur :: acc), o)
       else n_items_idx r (S o) o (cur :: acc)
   end.
 Definition n_block_idx (fs : list lf) (offset : nat) : result (list nat * nat) :=
@@ -436,7 +490,22 @@ Definition n_sig_item (it : text * list text) : option ditem :=
   | None => Some (fst it, None, None)
   end.
 
-Definition n_section_items (cl : list text) (fs : list lf) (k : skind) (hdr : nat) : result (list ditem) :=
+(* _read_block: the lines of the block, joined *)
+Definition n_block_text (cl : list text) (fs : list lf) (offset : nat) : result text :=
+  if List.length fs <=? offset then Ok []
+  else match skip_blank (skipn offset fs) offset with
+       | None => Err IndexError
+       | Some (o, l, r) => Ok (rstrip_nl (join nl (lines_between cl o (n_block_loop (l :: r) o))))
+       end.
+
+Definition n_section_items (cl : list text) (fs : list lf) (trim : bool) (k : skind) (hdr : nat) : result (list ditem) :=
+  match k with
+  | KExamples =>
+      match n_block_text cl fs (S (S hdr)) with
+      | Err e => Err e
+      | Ok t => Ok (examples_of rx_numpy__RE_DOCTEST_FLAGS rx_numpy__RE_DOCTEST_BLANKLINE trim t)
+      end
+  | _ =>
   match n_block_items cl fs (S (S hdr)) with
   | Err e => Err e
   | Ok its =>
@@ -449,6 +518,7 @@ Definition n_section_items (cl : list text) (fs : list lf) (k : skind) (hdr : na
           | KDeprecated => match its with it :: _ => [([], Some (fst it), None)] | [] => [] end
           | KExamples => []
           end)
+  end
   end.
 
 (* ---- Sphinx ---- *)
@@ -626,9 +696,9 @@ Definition g_parse_full (cl : list text) (o : gopts) (p : parent) : result (list
   | Ok secs => match g_details cl fs o secs with Err e => Err e | Ok d => Ok (secs, d) end
   end.
 
-Definition n_details (cl : list text) (fs : list lf) (secs : list section) : result (list (list ditem)) :=
+Definition n_details (cl : list text) (fs : list lf) (trim : bool) (secs : list section) : result (list (list ditem)) :=
   map_result (fun s => match s with
-                       | SSec k hdr _ => n_section_items cl fs k hdr
+                       | SSec k hdr _ => n_section_items cl fs trim k hdr
                        | _ => Ok []
                        end) secs.
 
@@ -636,5 +706,5 @@ Definition n_parse_full (cl : list text) (o : gopts) (p : parent) : result (list
   let fs := features cl in
   match n_parse fs o p with
   | Err e => Err e
-  | Ok secs => match n_details cl fs secs with Err e => Err e | Ok d => Ok (secs, d) end
+  | Ok secs => match n_details cl fs (o_trim o) secs with Err e => Err e | Ok d => Ok (secs, d) end
   end.
